@@ -45,6 +45,9 @@ impl TypeParameters {
         if self.unused.is_empty() {
             return None;
         }
+        // List the unused params in declaration order: the order of the `unused` set follows the
+        // concrete type ids, which would make the output depend on how the registry is numbered.
+        let unused_in_declaration_order = self.params.iter().filter(|p| self.unused.contains(p));
         let params = if self.unused.len() == 1 {
             let param = self
                 .unused
@@ -53,7 +56,7 @@ impl TypeParameters {
                 .expect("Checked for exactly one unused param");
             quote! { #param }
         } else {
-            let params = self.unused.iter();
+            let params = unused_in_declaration_order;
             quote! { ( #( #params ), * ) }
         };
         Some(syn::parse_quote! {::core::marker::PhantomData<#params> })
